@@ -121,12 +121,27 @@ def yaml_call_of(st):
 
 def walk_calls(stmts, conds, alias, acc, others):
     """every leaf statement of a `__call__`: a yaml call site (-> acc) or something else (-> others)"""
-    for st in stmts:
+    def pos(test):
+        return 'not (' + src(test.operand) + ')' if isinstance(test, ast.UnaryOp) and isinstance(test.op, ast.Not) \
+            else src(test)
+
+    def neg(test):
+        return src(test.operand) if isinstance(test, ast.UnaryOp) and isinstance(test.op, ast.Not) \
+            else 'not (' + src(test) + ')'
+    for i, st in enumerate(stmts):
         if isinstance(st, ast.Expr) and isinstance(st.value, ast.Constant):
             continue
+        if isinstance(st, ast.Return) and st.value is None:
+            continue            # plain control flow (see the early-return rule below)
         if isinstance(st, ast.If):
-            walk_calls(st.body, conds + [src(st.test)], alias, acc, others)
-            walk_calls(st.orelse, conds + ['not (' + src(st.test) + ')'], alias, acc, others)
+            body, orelse = list(st.body), list(st.orelse)
+            if not orelse and body and isinstance(body[-1], ast.Return):
+                # `if c: ...; return` followed by the rest  ==  `if c: ... else: <the rest>`
+                walk_calls(body, conds + [pos(st.test)], alias, acc, others)
+                walk_calls(stmts[i + 1:], conds + [neg(st.test)], alias, acc, others)
+                return
+            walk_calls(body, conds + [pos(st.test)], alias, acc, others)
+            walk_calls(orelse, conds + [neg(st.test)], alias, acc, others)
         elif isinstance(st, ast.With):
             ctxs = ['with ' + ', '.join(src(i.context_expr) + (' as ' + src(i.optional_vars) if i.optional_vars else '')
                                           for i in st.items)]
@@ -163,7 +178,8 @@ def generate():
             if not acc:
                 raise Untranslatable('no yaml call found in {}.{}.__call__'.format(factory, cls))
             params = [a.arg for a in call.args.args][1:] + [a.arg for a in call.args.kwonlyargs]
-            for conds, callee, args, kwargs, is_ret in acc:
+            # the order of the branches of a `__call__` says nothing: sites in a canonical order
+            for conds, callee, args, kwargs, is_ret in sorted(acc, key=lambda a: (a[0], a[1], a[2])):
                 sites.append((factory, cls, params, conds, callee, args, kwargs, is_ret))
     out = ['-- GENERATED by harness/translate_callsites.py from yatiml/loader.py and yatiml/dumper.py; do not edit.',
            'import YatimlModel.Model.CallSites',
